@@ -41,6 +41,7 @@ def run(eng, rep) -> None:
     rep.rule("R02.5", "two's complement sign reconstruction")
     rep.rule("R02.6", "C++ side (clang AST of requested instantiations): wrapper Encode/Decode grammars == canonical; fcp::Buffer per-bit LSB-first mapping, cursor advance by width, no lossy sub-byte shift")
     rep.rule("R02.7", "a test of the consumed bit count against the input length that raises rounds the bits up to whole bytes (zero padding in the last byte is canonical)")
+    rep.rule("R02.8", "a smallest-size function used in a rejecting guard is a true lower bound (absent Optional: 8 bits, empty string / dynamic array: 32 bits)")
     rep.assume("struct native 'f'/'d' = IEEE-754 little-endian on the host; ASCII restriction of strings is not checked")
     cc = find_cursor_class(eng)
     pr = Prims(eng, cc)
@@ -78,6 +79,7 @@ def run(eng, rep) -> None:
             rep.violation("R02.2", m.file, m.qual, construct, detail)
     r024(eng, rep, pr)
     r027(eng, rep, cc)
+    r028(eng, rep)
     r023(eng, rep)
     # R02.5 re-uses the R01.5 decision under this property's id
     sub = type(rep)(rep.pid, rep.tier, rep.root, quiet=True)
@@ -170,6 +172,59 @@ def r027(eng, rep, cc) -> None:
             else:
                 rep.undecided("R02.7", f.file, f.qual, site, "conversion of the bit count to bytes not recognised")
     rep.ok("R02.7", "-", "-", "consumed-length tests outside the buffer class", "%d found" % n)
+
+
+def r028(eng, rep) -> None:
+    """A function that gives the smallest wire size of a type, used in a guard that rejects input (`count * min_size(T) > bits left`),
+    must really be a lower bound: an absent Optional takes 8 bits, an empty string / dynamic array 32 - a branch that adds the
+    element's size over-estimates, and the guard then rejects canonical encodings that contain absent / empty values."""
+    prog, cg = eng.prog, eng.cg
+    n = 0
+    for q in sorted(cg.reachable([DEC])):
+        f = prog.functions.get(q)
+        if f is None or not f.module.name.startswith("fcp.serde"):
+            continue
+        # per-class branches of an isinstance dispatch that return sizes
+        tparam = None
+        branches = []
+        for st in walk_local(f.node):
+            if isinstance(st, ast.If) and isinstance(st.test, ast.Call) and dotted(st.test.func) == "isinstance" and len(st.test.args) == 2 and isinstance(st.test.args[0], ast.Name):
+                rets = [r for r in st.body if isinstance(r, ast.Return) and r.value is not None]
+                if rets:
+                    cl = st.test.args[1]
+                    names = [(dotted(c) or "").split(".")[-1] for c in (cl.elts if isinstance(cl, ast.Tuple) else [cl])]
+                    branches.append((names, rets[0].value))
+                    tparam = st.test.args[0].id
+        if len(branches) < 3 or not any("OptionalType" in nm for nm, _ in branches):
+            continue
+        # is its result used in a raising comparison somewhere on the decode path?
+        used_in_guard = None
+        for q2 in cg.reachable([DEC]):
+            g = prog.functions.get(q2)
+            if g is None:
+                continue
+            for st in walk_local(g.node):
+                if isinstance(st, ast.If) and any(isinstance(b, ast.Raise) for b in st.body) and isinstance(st.test, ast.Compare):
+                    for c in ast.walk(st.test):
+                        if isinstance(c, ast.Call) and cg.site_of.get(id(c)) and f.qual in cg.site_of[id(c)].callees:
+                            used_in_guard = (g, st)
+        if used_in_guard is None:
+            continue
+        n += 1
+        g, gst = used_in_guard
+        for names, rv in branches:
+            for k, lim in (("OptionalType", 8), ("StringType", 32), ("DynamicArrayType", 32)):
+                if k not in names:
+                    continue
+                rec = [c for c in ast.walk(rv) if isinstance(c, ast.Call) and any(isinstance(a, ast.Attribute) and a.attr == "underlying_type" for a in ast.walk(c))]
+                site = "%s: %s  (used in `if %s: raise` of %s)" % (k, norm(rv, 50), norm(gst.test, 50), g.name)
+                if rec:
+                    rep.violation("R02.8", f.file, f.qual, site, "the bound counts the %s's element (%s) although an %s takes only %d bits on the wire: the guard rejects canonical encodings that contain such values" % (k[:-4], norm(rec[0], 40), "absent Optional" if k == "OptionalType" else "empty sequence", lim))
+                elif isinstance(rv, ast.Constant) and isinstance(rv.value, int):
+                    rep.check(rv.value <= lim, "R02.8", f.file, f.qual, site, "<= smallest encoding (%d bits)" % lim, "the bound is %d bits, more than the smallest encoding of %s (%d bits): the guard rejects canonical encodings" % (rv.value, k[:-4], lim))
+                else:
+                    rep.undecided("R02.8", f.file, f.qual, site, "size expression not recognised")
+    rep.ok("R02.8", "-", "-", "size-bound functions used in rejecting guards on the decode path", "%d found" % n)
 
 
 def r024(eng, rep, pr: Prims) -> None:
